@@ -444,3 +444,43 @@ def salt_fed_at_every_hasher(ctx, P):
         ctx.check('%s:salt-per-hasher:%s' % (P, p), 'R-sib', 'every signature hasher created in %s is fed the v6 salt on the V6 branch (one feed per new_hasher call)' % p.split('::')[-1],
                   len(salt) >= len(nh), function=p, count=len(salt), missing=None if len(salt) >= len(nh) else '%d hashers, %d salt feeds' % (len(nh), len(salt)))
     ctx.floor(P + ':salt-per-hasher:floor', 'functions creating signature hashers', n, 11)
+
+
+def natural_loop(b, h, dom=None):
+    dom = dom or b.dominators()
+    back_src = [u for u in b.preds()[h] if h in dom.get(u, ())]
+    if not back_src:
+        return set()
+    return b.can_reach(set(back_src), removed=frozenset([h])) | {h}
+
+
+def s02_8_every_binding_verified(ctx, P):
+    """R-sib over the composite `verify_bindings` / `verify_third_party` functions: every iteration over the stored
+    signatures / components passes a verification call whose failure is propagated — no signature is skipped."""
+    n = 0
+    for p, r in sorted(ctx.f.bodies.items()):
+        if r.get('name') not in ('verify_bindings', 'verify_third_party') or not (p.startswith('types::user::') or p.startswith('composed::signed_key::')):
+            continue
+        b = ctx.wrap(r)
+        heads = [(i, t) for i, t in b.calls(r'Iterator::next$') if re.search(r'Signature|SignedUser|SignedUserAttribute|Signed(Public|Secret)SubKey', t['f'].get('selfty', ''))]
+        if not heads:
+            continue
+        dom = b.dominators()
+        oks = ok_exit_blocks(b)
+        for h, t in heads:
+            n += 1
+            item = re.sub(r".*<'?_?,? ?", '', t['f'].get('selfty', '')).rstrip('>').split('::')[-1]
+            loop = natural_loop(b, h, dom)
+            gs = [g for g, _ in guard_switches(b, oks, [r'call:.*::verify_[a-z_]+$|call:.*::verify$|call:.*::verify_bindings$'])]
+            some = b.blocks[h]['t']['t']   # block switching on the Option
+            bad = None
+            for j, _ in b.succ(some):
+                if j in loop:
+                    p_ = b.find_path(j, {h}, removed=frozenset(gs))
+                    if p_ is not None:
+                        bad = p_
+            ctx.check('%s:S02-8:every-item-verified:%s:%s' % (P, p, item), 'R-sib',
+                      'every %s iterated by %s is verified with its error propagated (no skip / continue path around the verification)' % (item, p.split('::')[-2] + '::' + p.split('::')[-1]),
+                      bad is None and bool(gs), function=p, site=site(b, h), witness=fmt_path(b, bad) if bad else None,
+                      missing='an iteration can complete without a checked verification' if bad else None)
+    ctx.floor(P + ':S02-8:floor', 'loops over stored signatures/components in verify_bindings-like functions', n, 8)
